@@ -127,6 +127,39 @@ func guardCase(c *vlib.Ctx, section, caseID string, fn func()) {
 		map[string]interface{}{"parked_goroutine": out.Stack, "lock_chain": strings.Join(chain, "<-")})
 }
 
+var isEnumOp = map[string]bool{"Keys": true, "Values": true, "Entries": true}
+var readOps = map[string]bool{"Get": true, "ContainsKey": true, "Contains": true, "HasKey": true}
+
+// probeRead performs one non-modifying look-up on the history's instance (called between two
+// elements of an enumeration in progress) and compares it with the model.
+func (h *hist) probeRead() {
+	var names []string
+	for _, n := range h.d.PointOps {
+		if readOps[n] {
+			names = append(names, n)
+		}
+	}
+	if len(names) == 0 {
+		return
+	}
+	op := h.genOp(names[h.r.Intn(len(names))], 0)
+	if !h.d.StringKey && len(h.known) > 0 && h.r.Intn(2) == 0 {
+		op.K = h.pickKnownInt()
+	} else if h.d.StringKey && len(h.sknown) > 0 && h.r.Intn(2) == 0 {
+		op = pmap.StrOp(op.Name, h.sknown[h.r.Intn(len(h.sknown))])
+	}
+	want := h.m.Step(op)
+	got := pmap.Apply(h.in, op)
+	if len(h.trace) < 6000 {
+		h.trace = append(h.trace, "    between two elements of the next enumeration: "+op.String()+" -> "+got.String())
+	}
+	h.c.Count("reads_during_enumeration", 1)
+	if !pmap.Match(want, got, h.in.None) {
+		h.fail(methodName(op), "wrong-return/during-enumeration", fmt.Sprintf("%s.%s called during an enumeration returned %s, the model says %s", h.d.Name, op, got, want),
+			map[string]interface{}{"expected": want.String(), "actual": got.String()})
+	}
+}
+
 var mutating = map[string]bool{
 	"Put": true, "Add": true, "AddIfExist": true, "Remove": true, "Clear": true, "PutAll": true,
 	"Sort": true, "ToObject": true, "Unipoint": true, "SetMax": true,
@@ -270,7 +303,24 @@ func (h *hist) step(op pmap.Op) {
 		self = h.selfLive(op)
 	}
 	want := h.m.Step(op)
+	probing := false
+	if isEnumOp[op.Name] && h.m.Size() >= 2 && h.r.Intn(3) == 0 {
+		// an enumeration "taken while the structure is not being modified": look-ups on the same
+		// instance between two elements are not modifications and must not disturb it
+		probing = true
+		budget := 2 * h.m.Size()
+		if budget > 256 {
+			budget = 256
+		}
+		pmap.BetweenNext = func() {
+			if budget > 0 {
+				budget--
+				h.probeRead()
+			}
+		}
+	}
 	got := h.apply(op)
+	pmap.BetweenNext = nil
 	h.record(op, got)
 	h.c.Count("ops", 1)
 	h.c.SetAdd("ops_covered", mkey)
@@ -291,6 +341,9 @@ func (h *hist) step(op pmap.Op) {
 		kind := "wrong-return"
 		if want.Kind == pmap.RMultiset {
 			kind = "enumeration-multiset"
+			if probing {
+				kind = "enumeration-multiset/interleaved-reads"
+			}
 		}
 		h.fail(method, kind, fmt.Sprintf("%s.%s returned %s, the model says %s", h.d.Name, op, got, want),
 			map[string]interface{}{"expected": want.String(), "actual": got.String()})
@@ -299,6 +352,9 @@ func (h *hist) step(op pmap.Op) {
 			return
 		}
 	default:
+		if probing {
+			h.c.Count("enumerations_with_interleaved_reads", 1)
+		}
 		if want.Kind == pmap.RMultiset {
 			h.c.Count("enumerations_compared", 1)
 			h.c.Count("elements_enumerated", int64(got.N))
